@@ -49,6 +49,10 @@ func GetBadgerRaftId(db *badger.DB) (uint64, error) {
 }
 
 func SetBadgerRaftId(db *badger.DB, id uint64) error {
+	if err := verifIO(db, uuid.Nil, "raftid", true); err != nil {
+		return err
+	}
+	defer verifIO(db, uuid.Nil, "raftid", false)
 	return db.Update(func(txn *badger.Txn) error {
 		var b [8]byte
 		binary.BigEndian.PutUint64(b[:], id)
@@ -203,6 +207,10 @@ func (this *badgerWAL) HardState() (raftpb.HardState, error) {
 }
 
 func (this *badgerWAL) Save(hardState raftpb.HardState, entries []raftpb.Entry, snapshot raftpb.Snapshot) error {
+	if err := verifIO(this.db, this.groupId, "save", true); err != nil {
+		return err
+	}
+	defer verifIO(this.db, this.groupId, "save", false)
 	batch := this.db.NewWriteBatch()
 	defer batch.Cancel()
 
@@ -234,6 +242,10 @@ func (this *badgerWAL) CreateSnapshot(idx uint64, confState *raftpb.ConfState, d
 	if confState == nil {
 		return snapshot, EmptyConfStateErr
 	}
+	if err := verifIO(this.db, this.groupId, "snapshot", true); err != nil {
+		return snapshot, err
+	}
+	defer verifIO(this.db, this.groupId, "snapshot", false)
 	firstIndex, err := this.FirstIndex()
 	if err != nil {
 		return snapshot, err
@@ -562,6 +574,10 @@ func (this *badgerWAL) deleteKeys(batch *badger.WriteBatch, keys []string) error
 }
 
 func (this *badgerWAL) reset(entries []raftpb.Entry) error {
+	if err := verifIO(this.db, this.groupId, "reset", true); err != nil {
+		return err
+	}
+	defer verifIO(this.db, this.groupId, "reset", false)
 	this.cache = new(sync.Map)
 
 	batch := this.db.NewWriteBatch()
